@@ -68,4 +68,31 @@ PROPS = {
                ["Uniseg.Properties.C04.line_verdicts_eq_uax14", "Uniseg.Properties.C04.line_segments_eq_uax14", "Uniseg.Properties.C04.mustBreak_iff",
                 "Uniseg.Spec.LB.lbVerdict_factor", "Uniseg.Cert.Line.valid"],
                "lb", "fl", "l,L,e,E,g,G"),
+    "C06": rel("Uniseg.Properties.C06",
+               ["Uniseg.Properties.C06.cpWidth_eq", "Uniseg.Properties.C06.foldWidth_spec", "Uniseg.Properties.C06.cluster_width_eq_model",
+                "Uniseg.Properties.C06.coherent_next", "Uniseg.Properties.C06.chain_widths_eq", "Uniseg.Properties.C06.stringWidth_eq_sum"],
+               ["C08"], stages=("E2", "REF", "RW", "E5", "WIDTHSPEC"), oracle_stages=["WIDTHSPEC", "REF"],
+               e2props="g,G,e,E,m", e5only="fg,st,sts,sw"),
+    "C08": rel("Uniseg.Properties.C08",
+               ["Uniseg.Properties.C08.pack_roundtrip", "Uniseg.Properties.C08.substates_in_range", "Uniseg.Properties.C08.lockstep_word",
+                "Uniseg.Properties.C08.lockstep_sentence", "Uniseg.Properties.C08.lockstep_line", "Uniseg.Properties.C08.lockstep_grapheme",
+                "Uniseg.Properties.C08.step_chain", "Uniseg.Properties.C08.step_clusters_eq_fg",
+                "Uniseg.Range.gr_cells", "Uniseg.Range.wb_cells", "Uniseg.Range.sb_cells", "Uniseg.Range.lb_cells"],
+               ["C08"], stages=("E5",), e5only="fg,fw,fs,fl,st,sts"),
+    "C09": rel("Uniseg.Properties.C09",
+               ["Uniseg.Properties.C09.step_variants", "Uniseg.Properties.C09.step_coherent", "Uniseg.Properties.C09.step_chain_variants",
+                "Uniseg.Properties.C09.coherent_none"],
+               ["C09"], stages=("E3", "E5"), extra="extra_twins"),
+    "C13": rel("Uniseg.Properties.C13",
+               ["Uniseg.Properties.C13.next_refines", "Uniseg.Properties.C13.observe_refines", "Uniseg.Properties.C13.rel_reset",
+                "Uniseg.Properties.C13.run_refines", "Uniseg.Properties.C13.iterator_mirrors_stepstring", "Uniseg.Properties.C13.next_true_exactly_len"],
+               ["C13"], stages=("E5", "E6"), e5only="sts"),
+    "C14": rel("Uniseg.Properties.C14",
+               ["Uniseg.Properties.C14.count_eq_clusters", "Uniseg.Properties.C14.count_zero_iff", "Uniseg.Properties.C14.count_le_len",
+                "Uniseg.Properties.C14.reverse_eq_clusters_reversed", "Uniseg.Properties.C14.reverse_length", "Uniseg.Properties.C14.clusters_flatten"],
+               ["C14"], stages=("E5",), e5only="fg,gcc,rev"),
+    "C15": rel("Uniseg.Properties.C15",
+               ["Uniseg.Properties.C15.runeWidth_amb", "Uniseg.Properties.C15.runeWidth_affine", "Uniseg.Properties.C15.firstGraphemeCluster_amb",
+                "Uniseg.Properties.C15.grapheme_chain_amb", "Uniseg.Properties.C15.step_amb", "Uniseg.Properties.C15.step_flags_amb"],
+               ["C15"], stages=("E5",), e5only="fg,st,sts,sw", extra="extra_amb"),
 }
